@@ -226,6 +226,11 @@ def run(ctx):
     ctx.rule("R7.streaming", "the decoder of the record count recognises the specification's STREAMING alternative "
              "(numrecs = NON_NEG | STREAMING: the all-ones word) before it takes the word as a count")
     check_streaming(ctx, ctx.need_fn(ctx.program(names=["ncmpio_header_get.c"]), "ncmpio_hdr_get_NC"))
+    from rules import r8namecopy
+    ctx.rule("R8.namecopy", "hdr_get_NC_name: the pieces of a name that straddles read-window boundaries tile the name buffer (bounded: "
+             "names of 1..9 bytes at every distance 0..9 from the end of a 16-byte window)")
+    nn = r8namecopy.check(ctx, ctx.need_fn(ctx.program(names=["ncmpio_header_get.c"]), "hdr_get_NC_name"), "R8.namecopy")
+    ctx.require(nn >= 80, "R8.namecopy: only %d cells evaluated" % nn)
     from rules import r8varshape
     ctx.rule("R8.recsize", "compute_var_shape: the reader's record size is the single record variable's unpadded bytes per record, or the "
              "sum of the record variables' padded lengths (bounded: lists of up to 3 variables)")
